@@ -102,6 +102,19 @@ def run_state(case):
         lst.append(7)
         if lst[:-1] and len(lst) > 1:
             lst[0] = 99
+    # augmented operators rebind the name they are applied to and leave the state object (and so every other reference
+    # to it: an alias, a dict key, a shared start value) alone
+    import operator
+    for opname, fn, arg in (("+=", operator.iadd, sb), ("+= empty", operator.iadd, S([])), ("*=", operator.imul, 2),
+                            ("|=", operator.ior, sb), ("&=", operator.iand, sb)):
+        tmp = sa
+        try:
+            tmp = fn(tmp, arg)
+        except Exception:  # noqa: BLE001, S110  (not supported: nothing to check)
+            pass
+        else:
+            if opname == "+=" and tmp.s != a + b:
+                raise Violation(f"s += t gives {tmp.s}, expected the concatenation {a + b}", key="concatenation")
     sliced = sa[0:len(a)]
     other = sa + S([])
     for obj in (sliced, other):
@@ -169,6 +182,13 @@ def run_annotated(case):
     for obj in (a[0:len(L)], a + A([]), a.merge(A([[] for _ in L]))):
         for inner in obj.s:
             inner.append(6)
+    import operator
+    for fn, arg in ((operator.iadd, e), (operator.iadd, A([])), (operator.imul, 2)):
+        tmp = a
+        try:
+            tmp = fn(tmp, arg)
+        except Exception:  # noqa: BLE001, S110
+            pass
     now = (str(a), hash(a), a.n_photons, [list(x) for x in a.s])
     if now != snap:
         raise Violation(f"a value obtained through the API aliased the internal storage of AnnotatedState({L})",
@@ -281,6 +301,14 @@ def run_numeric(case):
         if not np.array_equal(again, keep):
             raise Violation(f"{name}({n}, seed={seed}) returns something else after an earlier result was "
                             f"overwritten in place by the caller", key="random-result-aliased")
+    # the same seed in another numeric guise (integer-valued float, numpy integer / float) is the same seed
+    for twin in (float(seed), np.int64(seed), np.float64(seed)):
+        for name, fn, first in (("random_unitary", lw.random_unitary, U), ("random_permutation", lw.random_permutation, Pm)):
+            if name == "random_unitary" and seed >= 2 ** 32:
+                continue
+            got = call(f"{name}(seed={type(twin).__name__})", fn, n, twin)
+            if not np.array_equal(got, fn(n, seed)):
+                raise Violation(f"{name}({n}, seed={twin!r}) differs from seed={seed}", key="random-reproducible")
     er("bad-seed-unitary", (TypeError,), lw.random_unitary, n, case["badseed"])
     er("bad-seed-permutation", (TypeError,), lw.random_permutation, n, case["badseed"])
     return {"nontrivial": True, "labels": []}
